@@ -652,5 +652,261 @@ theorem selfBelow_del {T T1 : PT V} {dir : Nat → Bool} (hs : SelfBelow T) (hnd
           simp only [leafIdx, List.mem_append]
           exact .inl (ih3 hne)
 
+/-- which link of the node found by the second loop leads to node `n`: (is-right-link) -/
+def sideOf : PT V → Bool → Nat → (Nat → Bool) → Bool
+  | leaf _ _ _, sd, _, _ => sd
+  | inner i bp l r, sd, n, dir => if i = n then sd else if dir bp then sideOf r true n dir else sideOf l false n dir
+
+theorem parentEnd_prev (T : PT V) (pi n : Nat) (dir : Nat → Bool) : parentEnd T pi n dir = pi ∨ parentEnd T pi n dir ∈ inners T := by
+  induction T generalizing pi with
+  | leaf => simp [parentEnd]
+  | inner i bp l r ihl ihr =>
+    simp only [parentEnd, inners]
+    by_cases hin : i = n
+    · simp [hin]
+    · simp only [hin, if_false]
+      split
+      · rcases ihr i with h | h
+        · right; rw [h]; simp
+        · right; simp [h]
+      · rcases ihl i with h | h
+        · right; rw [h]; simp
+        · right; simp [h]
+
+/-- the removed leaf's node occurs as an inner node of `T` other than the referrer: it is on the path, above the
+referrer, so the path child of a node above it contains it -/
+theorem inner_on_path {i bp : Nat} {l r : PT V} {dir : Nat → Bool} (hs : SelfBelow (inner i bp l r))
+    (hnd : (leafIdx (inner i bp l r)).Nodup) {n : Nat} (hn : n = (descendD (inner i bp l r) dir).1)
+    (hmem : n ∈ inners (inner i bp l r)) (hin : i ≠ n) :
+    (dir bp = true → n ∈ inners r) ∧ (¬ dir bp = true → n ∈ inners l) := by
+  obtain ⟨_, hsl, hsr⟩ := hs
+  simp only [leafIdx, List.nodup_append] at hnd
+  obtain ⟨_, _, hdis⟩ := hnd
+  simp only [inners, List.mem_cons, List.mem_append] at hmem
+  simp only [descendD] at hn
+  constructor
+  · intro hd
+    simp only [hd, if_true] at hn
+    rcases hmem with h | h | h
+    · exact absurd h.symm hin
+    · exact absurd rfl (hdis n (mem_leafIdx_of_mem_inners' hsl h) n (hn ▸ descendD_idx_mem r dir))
+    · exact h
+  · intro hd
+    simp only [hd, if_false] at hn
+    rcases hmem with h | h | h
+    · exact absurd h.symm hin
+    · exact h
+    · exact absurd rfl (hdis n (hn ▸ descendD_idx_mem l dir) n (mem_leafIdx_of_mem_inners' hsr h))
+
+/-- if the removed leaf's node is an inner node of `T` other than the referrer, the redirected link belongs to an
+inner node of `T` -/
+theorem cutAt_inner (T : PT V) (pi : Nat) (sd : Bool) (rp0 : Nat) (dir : Nat → Bool) (hs : SelfBelow T) (hnd : (leafIdx T).Nodup)
+    (hmem : (descendD T dir).1 ∈ inners T) (hne : (findEnd T rp0 pi dir).2.1 ≠ (descendD T dir).1) :
+    (cutAt T pi sd dir).1 ∈ inners T := by
+  cases T with
+  | leaf => simp [inners] at hmem
+  | inner i bp l r =>
+    obtain ⟨_, hsl, hsr⟩ := hs
+    simp only [leafIdx, List.nodup_append] at hnd
+    obtain ⟨_, _, hdis⟩ := hnd
+    simp only [cutAt, descendD, findEnd] at hmem hne ⊢
+    by_cases hd : dir bp = true
+    · simp only [hd, if_true] at hmem hne ⊢
+      cases r with
+      | leaf j k v =>
+        exfalso
+        simp only [descendD, findEnd, inners, List.append_nil, List.mem_cons] at hmem hne
+        rcases hmem with h | h
+        · exact hne h.symm
+        · exact hdis j (mem_leafIdx_of_mem_inners' hsl h) j (by simp [leafIdx]) rfl
+      | inner j bp' l' r' =>
+        rcases cutAt_prev (inner j bp' l' r') i true dir with h | h
+        · rw [h.1]; simp [inners]
+        · have : (cutAt (inner j bp' l' r') i true dir).1 ∈ inners l ++ inners (inner j bp' l' r') :=
+            List.mem_append.mpr (.inr h)
+          simp only [inners, List.mem_cons]; exact .inr this
+    · simp only [hd, Bool.false_eq_true, if_false] at hmem hne ⊢
+      cases l with
+      | leaf j k v =>
+        exfalso
+        simp only [descendD, findEnd, inners, List.nil_append, List.mem_cons] at hmem hne
+        rcases hmem with h | h
+        · exact hne h.symm
+        · exact hdis j (by simp [leafIdx]) j (mem_leafIdx_of_mem_inners' hsr h) rfl
+      | inner j bp' l' r' =>
+        rcases cutAt_prev (inner j bp' l' r') i false dir with h | h
+        · rw [h.1]; simp [inners]
+        · have : (cutAt (inner j bp' l' r') i false dir).1 ∈ inners (inner j bp' l' r') ++ inners r :=
+            List.mem_append.mpr (.inl h)
+          simp only [inners, List.mem_cons]; exact .inr this
+
+theorem findEnd_rp_ne_rr (T : PT V) (rp0 pi : Nat) (dir : Nat → Bool) (hT : ∃ i bp l r, T = inner i bp l r)
+    (hni : pi ∉ inners T) (hnd : (inners T).Nodup) : (findEnd T rp0 pi dir).1 ≠ (findEnd T rp0 pi dir).2.1 := by
+  induction T generalizing rp0 pi with
+  | leaf => obtain ⟨_, _, _, _, h⟩ := hT; cases h
+  | inner i bp l r ihl ihr =>
+    simp only [inners, List.nodup_cons, List.mem_append, not_or, List.nodup_append, List.mem_cons] at hnd hni
+    obtain ⟨⟨hil, hir⟩, hnl, hnr, _⟩ := hnd
+    simp only [findEnd]
+    split
+    · cases r with
+      | leaf j k v => simp only [findEnd]; exact hni.1
+      | inner j bp' l' r' => exact ihr pi i ⟨_, _, _, _, rfl⟩ hir hnr
+    · cases l with
+      | leaf j k v => simp only [findEnd]; exact hni.1
+      | inner j bp' l' r' => exact ihl pi i ⟨_, _, _, _, rfl⟩ hil hnl
+
+theorem sideOf_of_parentEnd_eq (T : PT V) (pi n : Nat) (sd : Bool) (dir : Nat → Bool) (hni : pi ∉ inners T)
+    (h : parentEnd T pi n dir = pi) : sideOf T sd n dir = sd := by
+  cases T with
+  | leaf => rfl
+  | inner i bp l r =>
+    simp only [parentEnd, sideOf] at h ⊢
+    by_cases hin : i = n
+    · simp [hin]
+    · exfalso
+      simp only [hin, if_false] at h
+      simp only [inners, List.mem_cons, List.mem_append, not_or] at hni
+      split at h
+      · rcases parentEnd_prev r i n dir with e | e
+        · rw [e] at h; exact hni.1 h.symm
+        · rw [h] at e; exact hni.2.2 e
+      · rcases parentEnd_prev l i n dir with e | e
+        · rw [e] at h; exact hni.1 h.symm
+        · rw [h] at e; exact hni.2.1 e
+
+theorem parentEnd_ne (T : PT V) (pi n : Nat) (dir : Nat → Bool) (hpi : pi ≠ n) : parentEnd T pi n dir ≠ n := by
+  induction T generalizing pi with
+  | leaf => exact hpi
+  | inner i bp l r ihl ihr =>
+    simp only [parentEnd]
+    by_cases hin : i = n
+    · simp [hin, hpi]
+    · simp only [hin, if_false]
+      split
+      · exact ihr i hin
+      · exact ihl i hin
+
+theorem rename_self (a : Nat) (T : PT V) : rename a a T = T := by
+  induction T with
+  | leaf => rfl
+  | inner i bp l r ihl ihr =>
+    simp only [rename, ihl, ihr]
+    by_cases h : i = a <;> simp [h]
+
+theorem map_rename_of_not_mem {a b : Nat} {l : List Nat} (h : a ∉ l) : l.map (fun i => if i = a then b else i) = l := by
+  induction l with
+  | nil => rfl
+  | cons x xs ih =>
+    simp only [List.mem_cons, not_or] at h
+    have : ¬ x = a := fun e => h.1 e.symm
+    simp [this, ih h.2]
+
+theorem perm_map_rename {a b : Nat} {l : List Nat} (hm : a ∈ l) (hnd : l.Nodup) :
+    (a :: l.map (fun i => if i = a then b else i)).Perm (b :: l) := by
+  induction l with
+  | nil => simp at hm
+  | cons x xs ih =>
+    obtain ⟨hx, hxs⟩ := List.nodup_cons.mp hnd
+    by_cases hxa : x = a
+    · subst hxa
+      simp only [List.map_cons, if_true, map_rename_of_not_mem hx]
+      exact List.Perm.swap _ _ _
+    · have hm' : a ∈ xs := by
+        rcases List.mem_cons.mp hm with h | h
+        · exact absurd h.symm hxa
+        · exact h
+      simp only [List.map_cons, hxa, if_false]
+      exact (List.Perm.swap _ _ _).trans ((List.Perm.cons _ (ih hm' hxs)).trans (List.Perm.swap _ _ _))
+
+/-- the index invariants of the store after a deletion: the removed leaf's node `n` is replaced by the referrer `rr`
+among the inner nodes, and the referrer becomes the root when `n` was the root -/
+theorem del_invariants {T T1 : PT V} {dir : Nat → Bool} {r0 : Nat} (hs : SelfBelow T) (hndi : (inners T).Nodup)
+    (hr0 : r0 ∉ inners T) (hperm : (leafIdx T).Perm (r0 :: inners T)) (hct : contract T dir = some T1) (rp0 : Nat) :
+    let n := (descendD T dir).1
+    let rr := (findEnd T rp0 r0 dir).2.1
+    let T' := rename n rr T1
+    let r' := if n = r0 then rr else r0
+    (inners T').Nodup ∧ (leafIdx T').Nodup ∧ r' ∉ inners T' ∧ SelfBelow T' ∧ (leafIdx T').Perm (r' :: inners T') := by
+  intro n rr T' r'
+  have hndl : (leafIdx T).Nodup := hperm.nodup_iff.mpr (List.nodup_cons.mpr ⟨hr0, hndi⟩)
+  have hPI : (rr :: inners T1).Perm (inners T) := inners_contract_perm hct rp0 r0
+  have hPL : (n :: leafIdx T1).Perm (leafIdx T) := leafIdx_contract_perm hct
+  have hndI1 := hPI.nodup_iff.mpr hndi
+  have hndL1 := hPL.nodup_iff.mpr hndl
+  obtain ⟨hrr1, hnd1⟩ := List.nodup_cons.mp hndI1
+  obtain ⟨hn1, hndl1⟩ := List.nodup_cons.mp hndL1
+  have hsb := (selfBelow_del hs hndl hndi hct rp0 r0).1
+  have hrrT : rr ∈ inners T := hPI.subset (List.mem_cons_self ..)
+  have hsub : ∀ x ∈ inners T1, x ∈ inners T := fun x hx => hPI.subset (List.mem_cons_of_mem _ hx)
+  have hrr0 : rr ≠ r0 := fun e => hr0 (e ▸ hrrT)
+  -- leaves of the contracted tree against root and inner nodes of the old one
+  have hL : (n :: leafIdx T1).Perm (r0 :: rr :: inners T1) := hPL.trans (hperm.trans (List.Perm.cons _ hPI.symm))
+  refine ⟨?_, by simpa [T'] using hndl1, ?_, hsb, ?_⟩
+  · -- Nodup
+    show (inners (rename n rr T1)).Nodup
+    rw [inners_rename]
+    by_cases hm : n ∈ inners T1
+    · have := perm_map_rename (b := rr) hm hnd1
+      have hnd2 : (rr :: inners T1).Nodup := hndI1
+      exact (List.nodup_cons.mp (this.nodup_iff.mpr hnd2)).2
+    · rw [map_rename_of_not_mem hm]; exact hnd1
+  · show r' ∉ inners (rename n rr T1)
+    rw [inners_rename]
+    by_cases hm : n ∈ inners T1
+    · have hn0 : n ≠ r0 := fun e => hr0 (e ▸ hsub n hm)
+      simp only [r', hn0, if_false]
+      intro hmem
+      obtain ⟨x, hx, hxe⟩ := List.mem_map.mp hmem
+      by_cases hxn : x = n
+      · simp only [hxn, if_true] at hxe; exact hrr0 hxe
+      · simp only [hxn, if_false] at hxe; exact hr0 (hxe ▸ hsub x hx)
+    · rw [map_rename_of_not_mem hm]
+      by_cases hn0 : n = r0
+      · simp only [r', hn0, if_true]; exact hrr1
+      · simp only [r', hn0, if_false]; exact fun e => hr0 (hsub _ e)
+  · show (leafIdx (rename n rr T1)).Perm (r' :: inners (rename n rr T1))
+    rw [leafIdx_rename, inners_rename]
+    by_cases hm : n ∈ inners T1
+    · have hn0 : n ≠ r0 := fun e => hr0 (e ▸ hsub n hm)
+      simp only [r', hn0, if_false]
+      have h1 := perm_map_rename (b := rr) hm hnd1
+      -- n :: leaves ~ r0 :: rr :: inners T1 ~ r0 :: n :: map ~ n :: r0 :: map
+      have h2 : (n :: leafIdx T1).Perm (n :: r0 :: (inners T1).map (fun i => if i = n then rr else i)) :=
+        hL.trans ((List.Perm.cons _ h1.symm).trans (List.Perm.swap _ _ _))
+      exact h2.cons_inv
+    · rw [map_rename_of_not_mem hm]
+      by_cases hn0 : n = r0
+      · simp only [r', hn0, if_true]
+        have : (r0 :: leafIdx T1).Perm (r0 :: rr :: inners T1) := by
+          have h3 := hL
+          rw [hn0] at h3
+          exact h3
+        exact this.cons_inv
+      · simp only [r', hn0, if_false]
+        -- n is a leaf of T, not the root, so an inner node of T; not in T1, so it is rr
+        have hnT : n ∈ inners T := by
+          have : n ∈ r0 :: inners T := hperm.subset (hPL.subset (List.mem_cons_self ..))
+          rcases List.mem_cons.mp this with h | h
+          · exact absurd h hn0
+          · exact h
+        have hnrr : n = rr := by
+          rcases List.mem_cons.mp (hPI.symm.subset hnT) with h | h
+          · exact h
+          · exact absurd h hm
+        have : (n :: leafIdx T1).Perm (n :: r0 :: inners T1) := by
+          refine hL.trans ?_
+          rw [← hnrr]
+          exact List.Perm.swap _ _ _
+        exact this.cons_inv
+
+theorem topLeaf_of_perm {T : PT V} {r0 : Nat} (hperm : (leafIdx T).Perm (r0 :: inners T)) :
+    ∀ i k v, T = leaf i k v → i = r0 := by
+  intro i k v hT
+  subst hT
+  simp only [leafIdx, inners] at hperm
+  have := hperm.mem_iff (a := i)
+  simpa using this
+
 end PT
 end AlgoVerif.C06
